@@ -102,9 +102,9 @@ vf_rb_spec_drop(const r_buf_t *r, size_t index, size_t off, size_t round) {
 		return (0); /* same round but beyond the writer / later round than the writer */
 	if (diff == 1) {
 		if (index <= r->iov_index)
-			return (r->size + vf_rb_sum(r, index, r->iov_index));
-		return (vf_rb_sum(r, index, r->iov_index_max) - off +
-		    vf_rb_sum(r, 0, r->iov_index));
+			return (r->size + vf_rb_run(r, index, 1 + r->iov_index - index));
+		return (vf_rb_run(r, index, 1 + r->iov_index_max - index) - off +
+		    vf_rb_run(r, 0, 1 + r->iov_index));
 	}
 	return (r->size * diff);
 }
